@@ -105,7 +105,7 @@ impl Monitor for C09 {
         vec![("trainings", tier.pick(6000, 120_000))]
     }
     fn rule(&self) -> &'static str {
-        "case = random layer sequence (dense / convolution / deconvolution / max-pool / feedback block, 0..4 dense layers at varying positions, dense output layer; every third network additionally gets one or two skip connections (often chained or sharing a source) and / or a loop connection over one layer, which may itself be the target of a skip connection) (every sixth case instead: a chain of equal-shape layers with a loop - mostly with input skips - over a layer that is also the target of a skip connection and sits right behind a dropout layer) with dropout (rate from {0.1,0.5,0.9,1.0}) on a random non-empty subset of the dropout-capable layers, 4..12 training and 1..70 validation samples, 1..4 epochs, batch 1..5, SGD; with and (every 4th case) without validation data; every 8th case uses tolerance 1 so that training stops early after epoch 2; after all checks a second learn() call is made on the same network and checked the same way, followed by a learn() call with 0 (every third case: -1) epochs after which the flags must be off and predict() must equal the dropout-free twin. (1) hooked state: every forward pass of a validation sample inside learn() must see all training flags false (the flags seen by the forward passes of training samples are recorded as evidence that dropout was live, not judged), flags all false after learn() returns and before/during/after stand-alone validate()/predict(). (2) differential: a twin network without dropout receives the trained weights; the validation loss/accuracy learn() reported for its last epoch must equal validate() on the twin bit-for-bit, predict() must agree on probe inputs, and this is repeated for every prefix e <= E by deterministic re-training (prefix losses must coincide). (3) validate() right after learn() equals the last reported epoch. A case is non-trivial when the fixed-seed mask really changes the training forward pass (checked by comparing a training-mode forward with the twin). Distinct = distinct configuration descriptors."
+        "case = random layer sequence (dense / convolution / deconvolution / max-pool / feedback block with and without input / output skips, 0..4 dense layers at varying positions, dense output layer; every third network additionally gets one or two skip connections (often chained or sharing a source) and / or a loop connection over one layer, which may itself be the target of a skip connection) (every sixth case instead: a chain of equal-shape layers with a loop - mostly with input skips - over a layer that is also the target of a skip connection and sits right behind a dropout layer) with dropout (rate from {0.1,0.5,0.9,1.0}) on a random non-empty subset of the dropout-capable layers, 4..12 training and 1..70 validation samples, 1..4 epochs, batch 1..5, SGD; with and (every 4th case) without validation data; every 8th case uses tolerance 1 so that training stops early after epoch 2; after all checks a second learn() call is made on the same network and checked the same way, followed by a learn() call with 0 (every third case: -1) epochs after which the flags must be off and predict() must equal the dropout-free twin. (1) hooked state: every forward pass of a validation sample inside learn() must see all training flags false (the flags seen by the forward passes of training samples are recorded as evidence that dropout was live, not judged), flags all false after learn() returns and before/during/after stand-alone validate()/predict(). (2) differential: a twin network without dropout receives the trained weights; the validation loss/accuracy learn() reported for its last epoch must equal validate() on the twin bit-for-bit, predict() must agree on probe inputs, and this is repeated for every prefix e <= E by deterministic re-training (prefix losses must coincide). (3) validate() right after learn() equals the last reported epoch. A case is non-trivial when the fixed-seed mask really changes the training forward pass (checked by comparing a training-mode forward with the twin). Distinct = distinct configuration descriptors."
     }
     fn assumptions(&self) -> Vec<&'static str> {
         vec!["the library's dropout mask is a deterministic function of the tensor size (generator re-seeded with a constant), which makes re-training prefixes reproducible", "bit-for-bit equality is demanded because the statement is an identity (same weights, same code path, dropout off)"]
